@@ -533,6 +533,8 @@ def execute(ctx, cases, tag):
 def run(ctx):
     cases = generate(ctx)
     ctx.log("generated %d cases" % len(cases))
+    # design level (P-E): vectors and small exhaustive domains for ReprSpec / Unquote / Float64.IsNearestDec
+    ctx.tlc_ok("C15MC", "C15MC.cfg", workers=2, timeout=1200, heap="4g")
     results, died = execute(ctx, cases, "run")
     ctx.log("harness done (%d cases killed their process)" % len(died))
     recs = [record(c, results[c["id"]]) for c in cases]
